@@ -25,6 +25,9 @@ type CompareCfg struct {
 	DiffPage     bool    `json:"diff_page,omitempty"`
 	DiffShow     string  `json:"diff_show,omitempty"`
 	DiffSort     string  `json:"diff_sort,omitempty"`
+	// WaitNotifier: as "gedcom diff" does, wait until Compare has closed the
+	// Notifier before going on (the command blocks in "for range Notifier").
+	WaitNotifier bool `json:"wait_notifier,omitempty"`
 }
 
 func genCompareCase(prop, tier string, r *rand.Rand) *Case {
@@ -130,15 +133,19 @@ func runCompare(t *testing.T, cr *CaseResult, prop string, c *Case, cfg CompareC
 	run := &compareRun{}
 	run.res, _ = runSim(t, cr, prop, sim, func() {
 		opts := compareOptions(&cfg)
+		var notifierClosed chan struct{}
 		if cfg.Notifier == "drain" {
 			ch := make(chan gedcom.Progress)
 			opts.Notifier = ch
+			notifierClosed = make(chan struct{})
 			simrt.Go("harness:notifier", func() {
 				for {
 					simrt.Yield("harness:notifier.recv")
 					_, ok := <-ch
 					simrt.Yield("harness:notifier.recv+")
 					if !ok {
+						simrt.Yield("harness:notifier.closed")
+						close(notifierClosed)
 						return
 					}
 					progressSeen++
@@ -146,6 +153,11 @@ func runCompare(t *testing.T, cr *CaseResult, prop string, c *Case, cfg CompareC
 			})
 		}
 		result = left.Compare(right, opts)
+		if cfg.WaitNotifier && notifierClosed != nil {
+			simrt.Yield("harness:wait-notifier")
+			<-notifierClosed
+			simrt.Yield("harness:wait-notifier+")
+		}
 		if cfg.DiffPage {
 			// as "gedcom diff" does: the same options object, a drained
 			// progress channel
